@@ -22,7 +22,7 @@ KANI_DOMAIN = {
     'socktype_as_str': 'the twelve socket types',
     'greeting_ser': 'every version (u8,u8) x 3 mechanisms x as_server in {false,true}',
     'greeting_default': 'the single default greeting',
-    'cmd_parse_nopanic': 'all command frame bodies of length <= N (see harness)',
+    'cmd_name_only': 'command bodies that are a name only (1 + up to 6 octets)',
     'encode_loop': 'messages of 1..=3 frames with bodies of 0..=2 symbolic octets',
     'ready_ser': 'READY for every socket type, identity absent or 1..=3 symbolic octets',
 }
@@ -96,6 +96,92 @@ PROPS = {
             'uniqueness of generated identities; closing of a rejected connection (Rust ownership: FramedIo dropped on the ? path); reporting to caller / monitor (async closure in Socket::bind)',
         ],
     },
+    'C07': {
+        'units': ['message', 'reqrep'],
+        'scope': [
+            ('message', r'^ZmqMessage::', A, None),
+            ('reqrep', r'^ZmqMessage::(push_front|pop_front|prepend|split_off|len|is_empty)$', A, None),
+            ('reqrep', r'^ReqSocket::send$', F, r'req_sent_to|returned_intact'),
+            ('reqrep', r'^ReqSocket::send$', S, None),
+            ('reqrep', r'^ReqSocket::recv$', F, r'req_received_from'),
+            ('reqrep', r'^ReqSocket::recv$', S, None),
+            ('reqrep', r'^RepSocket::send$', A, None),
+            ('reqrep', r'^RepSocket::recv$', {'post', 'inv-entry', 'inv-end'}, None),
+            ('reqrep', r'^RepSocket::recv$', S, None),
+        ],
+        'kani': {},
+        'assumptions': [
+            'A-REGION-1: the delimiter-search loop `for (index, frame) in m.iter().enumerate() {..}` in RepSocket::recv is NOT verified (Iterator::enumerate is outside Verus); it is replaced by a stub assumed to set `at` to (index of the first empty frame)+1, or to leave it at 1',
+            'stand-ins with assumed contracts: scc::HashMap as a map (get_async yields &mut to exactly the entry of k), SegQueue as FIFO, FairQueue::next / FramedRead::next yield any item and log it, FramedWrite::send = feed + flush',
+            'Arc<T> modelled as Box<T> and interior mutability as &mut (D7): no other task touches the backend during one call (sequential scope)',
+        ],
+        'not_covered': ['mutations inside the assumed region A-REGION-1', 'requests arriving through real DEALER / ROUTER chains as a whole (each hop is covered by its own contract: C09, C10)'],
+    },
+    'C08': {
+        'units': ['reqrep'],
+        'scope': [
+            ('reqrep', r'^ReqSocket::send$', A, None),
+            ('reqrep', r'^ReqSocket::recv$', {'post'}, None),
+            ('reqrep', r'^ReqSocket::recv$', S, None),
+            ('reqrep', r'^RepSocket::send$', A, None),
+            ('reqrep', r'^RepSocket::recv$', {'post', 'inv-entry', 'inv-end'}, None),
+            ('reqrep', r'^ReqSocketBackend::|^RepSocketBackend::peer_connected$', A, None),
+            ('reqrep', r'^tmpl::lemma_first_live', A, None),
+        ],
+        'kani': {},
+        'assumptions': [
+            'sequential scope: Arc<T> as Box<T>, interior mutability as &mut (D7); scc::HashMap really is a map; RepSocketBackend::peer_disconnected is a stub (its real body locks a parking_lot mutex to notify the monitor)',
+        ],
+        'not_covered': ['interleavings of concurrent clients as such: the contracts say each call pairs request and reply by peer identity whatever other calls did'],
+    },
+    'C09': {
+        'units': ['routing'],
+        'scope': [
+            ('routing', r'^RouterSocket::', A, None),
+            ('routing', r'^GenericSocketBackend::peer_(connected|disconnected)$', A, None),
+            ('routing', r'PeerIdentity as TryFrom<Bytes>|Bytes as From<PeerIdentity>|^PeerIdentity::|PeerIdentity as Clone', A, None),
+            ('routing', r'^FramedIo::into_parts$', A, None),
+            ('routing', r'^tmpl::lemma_identity_of', A, None),
+        ],
+        'kani': {},
+        'assumptions': [
+            'A-REGION-3/4: `match &self.fair_queue_inner { .. inner.lock().insert/remove(..) .. }` in GenericSocketBackend::peer_connected / peer_disconnected is replaced by stubs (parking_lot mutex behind a shared reference)',
+            'sequential scope (Arc as Box, D7); the identity under which a peer is registered is the one util::peer_connected passes (C04)',
+        ],
+        'not_covered': ['which OS connection an identity denotes when two peers announce the same identity (upsert replaces)', 'RouterSocket::send with fewer than 2 frames (assert! in the code; the premise of the property itself)'],
+    },
+    'C10': {
+        'units': ['routing', 'reqrep'],
+        'scope': [
+            ('routing', r'^GenericSocketBackend::send_round_robin$', A, None),
+            ('routing', r'^GenericSocketBackend::peer_connected$', A, None),
+            ('routing', r'^DealerSocket::send$|^PushSocket::send$', A, None),
+            ('routing', r'^tmpl::lemma_first_live', A, None),
+            ('reqrep', r'^ReqSocket::send$', A, None),
+            ('reqrep', r'^ReqSocketBackend::peer_connected$', A, None),
+            ('reqrep', r'^tmpl::lemma_first_live', A, None),
+        ],
+        'kani': {},
+        'assumptions': [
+            'SinkExt::send completes only after a successful flush (futures contract): the FramedWrite::send stand-in appends to the flushed log exactly on Ok',
+            'sequential scope (Arc as Box, D7); SegQueue is a FIFO',
+        ],
+        'not_covered': ['"n consecutive sends reach n different peers" is a corollary of the queue postcondition (chosen peer goes to the back) for a duplicate-free queue; duplicate-freedom is established by peer_connected pushing each identity once and is not re-proved as a global invariant'],
+    },
+    'C14': {
+        'units': ['reqrep', 'routing'],
+        'scope': [
+            ('reqrep', r'^ReqSocket::recv$', {'assert'}, None),
+            ('reqrep', r'^RepSocket::recv$', {'assert', 'inv-entry', 'inv-end'}, None),
+            ('routing', r'^(RouterSocket|DealerSocket|PullSocket)::recv$', {'assert', 'inv-entry', 'inv-end'}, None),
+        ],
+        'kani': {},
+        'assumptions': [
+            'FairQueue::next, FramedRead::next and scc get_async are themselves cancel-safe (state lives in the queue / reader, not in the future): NOT verified',
+            'cancellation points are exactly the `.await`s (D2 removes them; the await-invariant is asserted immediately before the statement that contained each one)',
+        ],
+        'not_covered': ['SubSocket::recv, XPubSocket::recv, proxy()', 'the decoder half (partial frames survive a dropped read) is C02'],
+    },
     'C03': {
         'units': ['codec', 'handshake'],
         'scope': [
@@ -108,6 +194,7 @@ PROPS = {
             ('codec', r'^ZmqCodec::decode$', {'inv-entry', 'inv-end'}, r'bm_reserved|wf\(\)'),
             ('codec', r'^ZmqCodec::new$', A, None),
             ('codec', r'ZmqGreeting as TryFrom', S, None),
+            ('codec', r'ZmqCommand as TryFrom', S, None),
             ('codec', r'^ZmqMessage::push_back$|ZmqMessage as From<Bytes>', S, None),
         ],
         'kani': {
